@@ -445,6 +445,19 @@ func runParent(p Property, scs []Sc, tier string, seed int64, n int, evidencePat
 		}
 	}
 
+	// one concrete schedule written out: the default schedule of the first scenario (what a "case" looks like)
+	if len(scs) > 0 {
+		sc := scs[0].Scenario
+		cfg := sc.Cfg
+		cfg.Trace = true
+		inst := sc.New()
+		r := vs.Execute(cfg, explore.First{}, inst.Run)
+		tr := r.Trace
+		if len(tr) > 24 {
+			tr = append(append([]string{}, tr[:24]...), fmt.Sprintf("... (%d steps in all)", len(r.Trace)))
+		}
+		samples = append(samples, map[string]interface{}{"scenario": sc.Name, "default_schedule": tr})
+	}
 	var extra *ExtraResult
 	if p.Extra != nil && only == "" {
 		extra = p.Extra(tier, seed)
